@@ -243,7 +243,7 @@ def main(run):
     ep = enumerated_programs()
     for i in range(0, len(ep), 40):
         items.append(("enum", ep[i:i + 40]))
-    nchunks = 64 if quick else 3200
+    nchunks = 320 if quick else 3200
     per = 40
     for i in range(nchunks):
         items.append(("rand", (run.seed * 1000003 + i, per, i % len(CPUS))))
